@@ -496,7 +496,9 @@ class Foreign(Family):
                 if i < 3:
                     # every confusable key (internal identifiers, names containing an interpreted option's name) as the
                     # FIRST and as the LAST option of every header of this file
-                    for key in gf.UNKNOWN_KEYS[7:]:
+                    import sizes
+                    interpreted = {'version', 'encoding', 'length', 'indent', 'line_endings', 'format', 'type', 'mimetype'}
+                    for key in sorted(set(gf.UNKNOWN_KEYS[7:]) | (set(sizes.harvested_identifiers()) - interpreted)):
                         for k in range(len(f['sections'])):
                             if key in {o[0] for o in f['sections'][k]['opts']}:
                                 continue
